@@ -1198,7 +1198,7 @@ impl<Alloc: BrotliAlloc> BrotliEncoderStateStruct<Alloc> {
         mut dict: &[u8],
         opt_hasher: UnionHasher<Alloc>,
     ) {
-        let has_optional_hasher = if let UnionHasher::Uninit = opt_hasher {
+        let mut has_optional_hasher = if let UnionHasher::Uninit = opt_hasher {
             false
         } else {
             true
@@ -1219,6 +1219,12 @@ impl<Alloc: BrotliAlloc> BrotliEncoderStateStruct<Alloc> {
         if size > max_dict_size {
             dict = &dict[size.wrapping_sub(max_dict_size)..];
             dict_size = max_dict_size;
+            if has_optional_hasher {
+                // the supplied hasher holds positions of the whole dictionary; only its tail is
+                // kept and positions restart there, so the index has to be built from the tail
+                DestroyHasher(&mut self.m8, &mut self.hasher_);
+                has_optional_hasher = false;
+            }
         }
         self.copy_input_to_ring_buffer(dict_size, dict);
         self.last_flush_pos_ = dict_size as u64;
